@@ -35,6 +35,21 @@
 (* operators), every call is made ON an instance and is recorded with its  *)
 (* position in that instance's history; the results must not depend on     *)
 (* that history (LeaderHistoryIndependent, ...).                           *)
+(* SEVERAL WALLETS' EXECUTORS LIVE IN ONE PROCESS and their GetChecklist /  *)
+(* coordinate() steps interleave.  A checklist is a Go slice: a reference   *)
+(* to a backing array plus a length.  The caller keeps it (the leader       *)
+(* passes it to the proposal generator, the follower appends ActionNoop to  *)
+(* it -- `append(actionsChecklist, ActionNoop)` in coordinate() -- and uses *)
+(* the result as actionsAllowed for the whole active phase).  The model has *)
+(* a heap of arrays and handles held by callers; what a caller reads        *)
+(* through its handle must never change after it was returned               *)
+(* (ChecklistStable) and must be a function of the seed and the window only *)
+(* (ChecklistDependsOnlyOnSeedAndWindow), whatever other executors do.      *)
+(* FreshArrays = TRUE is the contract (every call builds its own slice);    *)
+(* FreshArrays = FALSE is the hazard grain of precomputed package-level     *)
+(* checklists returned by reference, with the heartbeat and Noop appended   *)
+(* in place into the spare capacity of the shared array.                    *)
+(*                                                                         *)
 (* Stateless = TRUE is the contract (the three functions are pure).        *)
 (* Stateless = FALSE is the hazard grain of an executor that caches its    *)
 (* sorted unique operator list and lets rng.Shuffle permute the cached     *)
@@ -52,15 +67,18 @@ CONSTANTS Ops,        \* operators (integers, address order)
           Blocks,     \* coordination blocks passed to the checklist
           MaxCalls,
           Execs,      \* executor instances
-          Stateless   \* TRUE: contract; FALSE: hazard grain (cached list shuffled in place)
+          Stateless,  \* TRUE: contract; FALSE: hazard grain (cached list shuffled in place)
+          FreshArrays \* TRUE: contract; FALSE: hazard grain (shared backing arrays)
 
 VARIABLES seedOf, pick, draw,  \* hidden choices (partial functions)
           permOf,              \* hazard grain: the whole permutation per <<seed, n>>
           execs,               \* e -> [w, ops, n]: wallet, view of its operators, calls made so far
           cache,               \* hazard grain: e -> current order of the cached unique operators
-          hist                 \* set of call records made so far
+          hist,                \* set of call records made so far
+          heap,                \* array id -> slots of a backing array ("_" = unused capacity)
+          held                 \* handle -> [arr, len, exp, s, idx, noop]: a checklist held by a caller
 
-vars == <<seedOf, pick, draw, permOf, execs, cache, hist>>
+vars == <<seedOf, pick, draw, permOf, execs, cache, hist, heap, held>>
 
 FRange(f) == {f[x] : x \in DOMAIN f}
 Extend(f, k, v) == [x \in DOMAIN f \cup {k} |-> IF x = k THEN v ELSE f[x]]
@@ -84,8 +102,19 @@ Checklist(idx, hb) ==
          \o (IF idx % 4 = 0 THEN <<"DepositSweep", "MovedFundsSweep", "MovingFunds">> ELSE <<>>)
          \o (IF hb THEN <<"Heartbeat">> ELSE <<>>)
 
+Full == <<"Redemption", "DepositSweep", "MovedFundsSweep", "MovingFunds">>
+\* handles and the arrays built per call are numbered 1, 2, ...; the two package-level arrays:
+PrioArr == 1000000001
+FullArr == 1000000002
+NextHandle == Cardinality(DOMAIN held) + 1
 Init == /\ seedOf = <<>> /\ pick = <<>> /\ draw = <<>> /\ permOf = <<>>
         /\ execs = <<>> /\ cache = <<>> /\ hist = {}
+        /\ held = <<>>
+        /\ heap = IF FreshArrays THEN <<>>
+                  ELSE (PrioArr :> <<"Redemption">>) @@ (FullArr :> Full \o <<"_", "_", "_", "_">>)
+
+\* what a caller reads through its handle
+Read(k) == SubSeq(heap[held[k].arr], 1, held[k].len)
 
 Budget == Cardinality(hist) < MaxCalls
 \* a call on executor e is recorded with its position in e's history
@@ -101,7 +130,7 @@ NewExecutor(e, w, list) ==
     /\ e \notin DOMAIN execs
     /\ execs' = Extend(execs, e, [w |-> w, ops |-> list, n |-> 0])
     /\ cache' = Extend(cache, e, SortedUnique(list))
-    /\ UNCHANGED <<seedOf, pick, draw, permOf, hist>>
+    /\ UNCHANGED <<seedOf, pick, draw, permOf, hist, heap, held>>
 
 \* getSeed on executor e when the safe block (coordination block - 32) has hash h
 GetSeed(e, h, s) ==
@@ -110,13 +139,13 @@ GetSeed(e, h, s) ==
          /\ IF k \in DOMAIN seedOf THEN seedOf[k] = s ELSE s \notin FRange(seedOf)
          /\ seedOf' = Extend(seedOf, k, s)
     /\ Record(e, [kind |-> "seed", w |-> execs[e].w, h |-> h, out |-> s])
-    /\ UNCHANGED <<pick, draw, permOf, cache>>
+    /\ UNCHANGED <<pick, draw, permOf, cache, heap, held>>
 
 \* getSeed when the chain cannot return the safe block hash
 GetSeedFails(e) ==
     /\ e \in DOMAIN execs
     /\ Record(e, [kind |-> "seedError", w |-> execs[e].w])
-    /\ UNCHANGED <<seedOf, pick, draw, permOf, cache>>
+    /\ UNCHANGED <<seedOf, pick, draw, permOf, cache, heap, held>>
 
 \* getLeader on executor e (contract: a pure function of the seed and the view)
 GetLeader(e, s, r) ==
@@ -128,7 +157,7 @@ GetLeader(e, s, r) ==
          /\ (k \in DOMAIN pick) => pick[k] = r
          /\ pick' = Extend(pick, k, r)
          /\ Record(e, [kind |-> "leader", s |-> s, ops |-> execs[e].ops, out |-> su[r]])
-    /\ UNCHANGED <<seedOf, draw, permOf, cache>>
+    /\ UNCHANGED <<seedOf, draw, permOf, cache, heap, held>>
 
 \* hazard grain: the seed's shuffle is applied IN PLACE to the executor's cached list
 GetLeaderCached(e, s, pm) ==
@@ -141,17 +170,51 @@ GetLeaderCached(e, s, pm) ==
          /\ permOf' = Extend(permOf, k, pm)
          /\ cache' = [cache EXCEPT ![e] = [i \in 1..Len(cur) |-> cur[pm[i]]]]
          /\ Record(e, [kind |-> "leader", s |-> s, ops |-> execs[e].ops, out |-> cur[pm[1]]])
-    /\ UNCHANGED <<seedOf, pick, draw>>
+    /\ UNCHANGED <<seedOf, pick, draw, heap, held>>
 
 \* coordinate(): getActionsChecklist(window.index(), seed) for the window at block b
-GetChecklist(e, s, b, hb) ==
+\* The caller receives the result as handle k.
+GetChecklist(e, s, b, hb, k) ==
     /\ e \in DOMAIN execs
+    /\ k \notin DOMAIN held
     /\ IF Index(b) = 0
           THEN UNCHANGED draw      \* returns nil before the PRNG is touched
           ELSE /\ (s \in DOMAIN draw) => draw[s] = hb
                /\ draw' = Extend(draw, s, hb)
-    /\ Record(e, [kind |-> "checklist", s |-> s, b |-> b, idx |-> Index(b), out |-> Checklist(Index(b), hb)])
+    /\ LET idx == Index(b)
+           out == Checklist(idx, hb)
+           h(arr) == [arr |-> arr, len |-> Len(out), exp |-> out, s |-> s, idx |-> idx, noop |-> FALSE] IN
+         /\ Record(e, [kind |-> "checklist", s |-> s, b |-> b, idx |-> idx, out |-> out, k |-> k])
+         /\ IF FreshArrays \/ idx = 0
+               THEN \* a slice built for this call (with the spare capacity Go's append leaves)
+                    /\ heap' = Extend(heap, k, out \o <<"_">>)
+                    /\ held' = Extend(held, k, h(k))
+               ELSE IF idx % 4 # 0
+               THEN IF hb
+                      THEN \* append to the 1/1 priority slice reallocates
+                           /\ heap' = Extend(heap, k, out)
+                           /\ held' = Extend(held, k, h(k))
+                      ELSE /\ UNCHANGED heap
+                           /\ held' = Extend(held, k, h(PrioArr))
+               ELSE \* the shared 4/8 slice: the heartbeat is appended in place
+                    /\ heap' = IF hb THEN [heap EXCEPT ![FullArr][5] = "Heartbeat"] ELSE heap
+                    /\ held' = Extend(held, k, h(FullArr))
     /\ UNCHANGED <<seedOf, pick, permOf, cache>>
+
+\* coordinate(), follower branch: actionsAllowed = append(actionsChecklist, ActionNoop),
+\* kept for the whole active phase as handle k2
+AppendNoop(k, k2) ==
+    /\ k \in DOMAIN held /\ k2 \notin DOMAIN held /\ ~held[k].noop
+    /\ LET h == held[k]
+           h2(arr) == [h EXCEPT !.arr = arr, !.len = h.len + 1, !.exp = h.exp \o <<"Noop">>, !.noop = TRUE] IN
+         IF h.len < Len(heap[h.arr])
+            THEN \* spare capacity: written in place
+                 /\ heap' = [heap EXCEPT ![h.arr][h.len + 1] = "Noop"]
+                 /\ held' = Extend(held, k2, h2(h.arr))
+            ELSE \* reallocated copy
+                 /\ heap' = Extend(heap, k2, Read(k) \o <<"Noop", "_">>)
+                 /\ held' = Extend(held, k2, h2(k2))
+    /\ UNCHANGED <<seedOf, pick, draw, permOf, execs, cache, hist>>
 
 DoNewExecutor     == \E e \in Execs, w \in Wallets, list \in Lists : NewExecutor(e, w, list)
 DoGetSeed         == \E e \in Execs, h \in Hashes, s \in Seeds : GetSeed(e, h, s)
@@ -159,9 +222,11 @@ DoGetSeedFails    == \E e \in Execs : GetSeedFails(e)
 DoGetLeader       == \E e \in Execs, s \in CallSeeds, r \in 1..Cardinality(Ops) : GetLeader(e, s, r)
 DoGetLeaderCached == \E e \in Execs, s \in CallSeeds, pm \in UNION {Perms(n) : n \in 1..Cardinality(Ops)} :
                         GetLeaderCached(e, s, pm)
-DoGetChecklist    == \E e \in Execs, s \in CallSeeds, b \in Blocks, hb \in BOOLEAN : GetChecklist(e, s, b, hb)
+DoGetChecklist    == \E e \in Execs, s \in CallSeeds, b \in Blocks, hb \in BOOLEAN : GetChecklist(e, s, b, hb, NextHandle)
+DoAppendNoop      == \E k \in DOMAIN held : Cardinality(DOMAIN held) <= MaxCalls /\ AppendNoop(k, NextHandle)
 
 Next == DoNewExecutor \/ DoGetSeed \/ DoGetSeedFails \/ DoGetLeader \/ DoGetLeaderCached \/ DoGetChecklist
+        \/ DoAppendNoop
 Spec == Init /\ [][Next]_vars
 
 ---------------------------------------------------------------------------
@@ -210,6 +275,16 @@ HeartbeatBySeedOnly ==
 \* ... on whatever executor and at whatever point of its history it is asked
 ChecklistHistoryIndependent ==
     \A c1, c2 \in Calls("checklist") : (c1.s = c2.s /\ c1.idx = c2.idx) => c1.out = c2.out
+
+\* C22: a checklist (and the follower's allowed actions derived from it) that a
+\* caller holds never changes after it was returned, whatever this or other
+\* wallets' executors compute afterwards ...
+ChecklistStable == \A k \in DOMAIN held : Read(k) = held[k].exp
+\* ... so what is read through it depends on the seed and the window only
+ChecklistDependsOnlyOnSeedAndWindow ==
+    \A k \in DOMAIN held :
+        Read(k) = (IF held[k].idx = 0 THEN <<>> ELSE Checklist(held[k].idx, draw[held[k].s]))
+                  \o (IF held[k].noop THEN <<"Noop">> ELSE <<>>)
 
 \* C22: the seed is a function of the wallet and the safe block hash, nothing
 \* else (not the executor, not its history)
